@@ -124,7 +124,7 @@ def run(tier, seed, replay=None):
                 continue
             for c, o in zip(tissues, obs):
                 nrun += 1
-                if not o["equal"] or not o["net_zero"]:
+                if not o["equal"] or not o["net_zero"] or not o.get("equal_reused", True):
                     chk.violation("impl:run:%s:%s" % (variant, json.dumps({k: v for k, v in c.items() if k != "k"})),
                                   "contact model %s: the forces of a whole contact phase on tissue %s are not the sum of the pair rule over the node-triangle pairs of different cells (%s; net zero: %s)"
                                   % (variant, json.dumps(c), o["rel"], o["net_zero"]), {"variant": variant, "tissue": c})
